@@ -346,6 +346,47 @@ theorem seqof_element_default_tag_cex :
     (toL2 cexModule 64 (.integer (some ⟨⟨2, 1⟩, .dflt⟩) none)).map tyTags = some [⟨2, 1⟩] := by
   constructor <;> decide
 
+/-! ## `first_extension` of a SEQUENCE (finding F120 repaired) -/
+
+/-- the specifics of a generated descriptor -/
+def specOf : Descr → DSpec
+  | .node _ _ _ _ _ s _ => s
+  | _ => .none
+
+/-- `asn_SEQUENCE_specifics_t.first_extension` -/
+def firstExtOf : DSpec → Option Int
+  | .seq fe _ _ _ _ => some fe
+  | _ => Option.none
+
+/-- **first_extension**: the descriptor generated for a SEQUENCE type carries the position of the extension marker
+    (the number of components before `...`) whenever the type has one — also when it has no components at all —
+    and -1 exactly when it has none: the codecs' "is extensible" test `first_extension >= 0` agrees with the type
+    (X.691 §19.1 extension bit, X.696 §16.2 preamble).  Finding F120 (the field was derived inside the loop over the
+    components, so `SEQUENCE { ... }` got -1) is repaired in `asn1c_lang_C_type_SEQUENCE_def`. -/
+theorem sequence_first_extension (M : Module) (o : Opts) (nm : Names) (fuel : Nat) (path name : String) (emb : Bool)
+    (t : CTy) (seen : List String) (p' : String) (tg : Option WTag) (ext : Option Nat) (comps : List Comp)
+    (hs : seen.contains path = false)
+    (ht : terminalWithPath M M.fuel path t = some (p', .constr tg .sequence ext comps)) :
+    firstExtOf (specOf (compTy M o nm (fuel + 1) path name emb t seen).1) =
+      some (match ext with | some e => (e : Int) | Option.none => -1) := by
+  rw [compTy]
+  simp only [hs, ht]
+  · simp only [Bool.false_eq_true, if_false]
+    simp only [specOf]
+    cases ext <;> (split <;> simp [firstExtOf])
+  · intro tag ext' comps' h
+    subst h
+    cases hf : M.fuel <;> simp [terminalWithPath] at ht
+
+/-- the former F120 witness `A ::= SEQUENCE { ... }` -/
+def f120Module : Module := ⟨"AUTOMATIC", [("A", .constr Option.none .sequence (some 0) [])]⟩
+
+/-- … is compiled with `first_extension = 0`, with the default options and without the PER / OER tables -/
+theorem empty_extensible_sequence_first_extension :
+    (compileDescr f120Module {} [] "A").map (fun d => firstExtOf (specOf d)) = some (some 0) ∧
+    (compileDescr f120Module { genPER := false, genOER := false } [] "A").map (fun d => firstExtOf (specOf d)) = some (some 0) := by
+  decide
+
 /-- the hypotheses of the tag theorems are satisfiable -/
 example : ValidTagDefault cexModule := Or.inr (Or.inr (Or.inl rfl))
 example : (toL2Named cexModule "L").isSome = true := by decide
